@@ -313,3 +313,353 @@ class AssertPositive(_BitsCfg):
     def counts(self, c, x, bits=None, err=None):
         n = _width(c, bits)
         return addc(n_pvb(c, n), n_ac(c))
+
+
+# ---------------------------------------------------------------------------
+# comparisons
+# ---------------------------------------------------------------------------
+
+def _other_operand(c, kind, name="y"):
+    return c.operand(name) if kind == "ss" else c.public_int("k")
+
+
+def _ov(c, y):
+    return c.v(y) if not isinstance(y, int) else term(y)
+
+
+def _oa(c, y):
+    """adversarial evaluation of an operand that may be a plain int"""
+    return c.eva(y) if not isinstance(y, int) else term(y) % c.p
+
+
+def _tied(c, *xs):
+    return And(*[c.tied(x) for x in xs if not isinstance(x, int)])
+
+
+class _Cmp(Contract):
+    """x <op> y as a 0/1 LinCombBool; the difference must fit bitlength."""
+    op = None
+
+    def configs(self, tier):
+        out = []
+        for n in ((3,) if tier == "quick" else (2, 8, 16)):
+            for m in MODES:
+                for k in ("ss", "sk"):
+                    out.append(dict(mode=m, kind=k, bits=n))
+        return out
+
+    def setup(self, c, cfg):
+        apply_mode(c, cfg["mode"], bitlength=cfg["bits"])
+        return getattr(c.LinComb, self.name.rsplit(".", 1)[1]), (c.operand("x"), _other_operand(c, cfg["kind"])), {}
+
+    def rel(self, x, y):
+        raise NotImplementedError
+
+    def diff(self, x, y):
+        raise NotImplementedError
+
+    def pre(self, c, x, y):
+        return [(1 << (c.bitlength + 1)) < c.p]
+
+    def _ok(self, c, x, y):
+        return And(isg(c), in_range(self.diff(c.v(x), _ov(c, y)), c.bitlength))
+
+    def raises(self, c, x, y):
+        return [(ValueError, And(Not(self._ok(c, x, y)), Not(ie(c))))]
+
+    def result(self, c, x, y):
+        return c.fresh_bool_lc(lift(If(self._ok(c, x, y), If(self.rel(c.v(x), _ov(c, y)), 1, 0), 0)), "cmp")
+
+    def post(self, c, r, x, y):
+        xv, yv = c.v(x), _ov(c, y)
+        ok = self._ok(c, x, y)
+        return {
+            "V.type": isinstance(r, c.LinCombBool),
+            "V.value": Implies(ok, Eq(c.v(r), If(self.rel(xv, yv), 1, 0))),
+            "V.inv": c.inv(r),
+            "S.bool": Implies(on(c), is01(c.eva(r))),
+            "S.unique": Implies(And(on(c), _tied(c, x, y), in_range(self.diff(xv, yv), c.bitlength)),
+                                c.eva(r) == If(self.rel(xv, yv), 1, 0)),
+            "canary.S.unique": Implies(And(on(c), _tied(c, x, y), in_range(self.diff(xv, yv), c.bitlength)),
+                                       c.eva(r) == If(self.rel(xv, yv + 1), 1, 0)),
+        }
+
+    def key(self, c, x, y):
+        return (c.bitlength,)
+
+    def counts(self, c, x, y):
+        return addc(n_pvb(c, c.bitlength + 1), n_ac(c))
+
+
+@register
+class Lt(_Cmp):
+    name = "pysnark.runtime:LinComb.__lt__"
+    rel = staticmethod(lambda x, y: x < y)
+    diff = staticmethod(lambda x, y: y - x - 1)
+
+
+@register
+class Le(_Cmp):
+    name = "pysnark.runtime:LinComb.__le__"
+    rel = staticmethod(lambda x, y: x <= y)
+    diff = staticmethod(lambda x, y: y - x)
+
+
+@register
+class Gt(_Cmp):
+    name = "pysnark.runtime:LinComb.__gt__"
+    rel = staticmethod(lambda x, y: x > y)
+    diff = staticmethod(lambda x, y: x - y - 1)
+
+
+@register
+class Ge(_Cmp):
+    name = "pysnark.runtime:LinComb.__ge__"
+    rel = staticmethod(lambda x, y: x >= y)
+    diff = staticmethod(lambda x, y: x - y)
+
+
+class _EqNe(Contract):
+    neg = False
+
+    def configs(self, tier):
+        return [dict(mode=m, kind=k) for m in MODES for k in ("ss", "sk")]
+
+    def setup(self, c, cfg):
+        apply_mode(c, cfg["mode"])
+        return getattr(c.LinComb, self.name.rsplit(".", 1)[1]), (c.operand("x"), _other_operand(c, cfg["kind"])), {}
+
+    def raises(self, c, x, y):
+        d = c.v(x) - _ov(c, y)
+        return [(ZeroDivisionError, And(d != 0, d % c.p == 0))]
+
+    def _spec(self, c, x, y):
+        e = c.v(x) == _ov(c, y)
+        return If(Not(e) if self.neg else e, 1, 0)
+
+    def result(self, c, x, y):
+        return c.fresh_bool_lc(lift(self._spec(c, x, y)), "eq")
+
+    def post(self, c, r, x, y):
+        fe = (c.eva(x) - _oa(c, y)) % c.p == 0
+        return {
+            "V.type": isinstance(r, c.LinCombBool),
+            "V.value": Eq(c.v(r), self._spec(c, x, y)),
+            "V.inv": c.inv(r),
+            "S.bool": is01(c.eva(r)),
+            "S.field": c.eva(r) == If(Not(fe) if self.neg else fe, 1, 0),
+            "S.unique": Implies(_tied(c, x, y), c.eva(r) == c.v(r)),
+        }
+
+    def counts(self, c, x, y):
+        return (0, 2, 2)
+
+
+@register
+class EqOp(_EqNe):
+    name = "pysnark.runtime:LinComb.__eq__"
+
+
+@register
+class NeOp(_EqNe):
+    name = "pysnark.runtime:LinComb.__ne__"
+    neg = True
+
+
+@register
+class CheckNonzero(Contract):
+    name = "pysnark.runtime:LinComb.check_nonzero"
+
+    def configs(self, tier):
+        return [dict(mode=m) for m in MODES]
+
+    def setup(self, c, cfg):
+        apply_mode(c, cfg["mode"])
+        return c.LinComb.check_nonzero, (c.operand("x"),), {}
+
+    def raises(self, c, x):
+        v = c.v(x)
+        return [(ZeroDivisionError, And(v != 0, v % c.p == 0))]
+
+    def result(self, c, x):
+        return c.fresh_bool_lc(lift(If(c.v(x) == 0, 0, 1)), "isnz")
+
+    def post(self, c, r, x):
+        return {
+            "V.type": isinstance(r, c.LinCombBool),
+            "V.value": Eq(c.v(r), If(c.v(x) == 0, 0, 1)),
+            "V.inv": c.inv(r),
+            "S.bool": is01(c.eva(r)),
+            "S.nonzero": c.eva(r) == If(c.eva(x) == 0, 0, 1),
+        }
+
+    def counts(self, c, x):
+        return (0, 2, 2)
+
+
+# ---------------------------------------------------------------------------
+# assertions
+# ---------------------------------------------------------------------------
+
+def small(c, *ts):
+    """|t| < p/4: differences of two such values are canonical representatives."""
+    q = c.p // 4
+    return And(*[And(t > -q, t < q) for t in ts])
+
+
+class _AssertCmp(Contract):
+    """x.assert_<rel>(y): run-time check and in-circuit relation must coincide."""
+
+    def configs(self, tier):
+        out = []
+        for n in ((3,) if tier == "quick" else (2, 8, 16)):
+            for m in MODES:
+                for k in ("ss", "sk"):
+                    out.append(dict(mode=m, kind=k, bits=n))
+        return out
+
+    def setup(self, c, cfg):
+        apply_mode(c, cfg["mode"], bitlength=cfg["bits"])
+        return getattr(c.LinComb, self.name.rsplit(".", 1)[1]), (c.operand("x"), _other_operand(c, cfg["kind"])), {}
+
+    def pre(self, c, x, y, err=None):
+        return [(1 << (c.bitlength + 1)) < c.p]
+
+    def raises(self, c, x, y, err=None):
+        xv, yv = c.v(x), _ov(c, y)
+        d = self.diff(xv, yv)
+        return [(AssertionError, And(Not(ie(c)), Or(Not(self.rel(xv, yv)), d >= (1 << c.bitlength))))]
+
+    def post(self, c, r, x, y, err=None):
+        xv, yv = c.v(x), _ov(c, y)
+        xa, ya = c.eva(x), _oa(c, y)
+        n = c.bitlength
+        return {
+            "S.range": Implies(on(c), self.diff(xa, ya) % c.p < (1 << n)),
+            "E.enforced": Implies(And(on(c), _tied(c, x, y), small(c, xv, yv)), self.rel(xv, yv)),
+            "E.same_width": Implies(And(on(c), _tied(c, x, y), small(c, xv, yv)), self.diff(xv, yv) < (1 << n)),
+            "canary.E.enforced": Implies(And(on(c), _tied(c, x, y), small(c, xv, yv)), self.diff(xv, yv) > 0),
+        }
+
+    def key(self, c, x, y, err=None):
+        return (c.bitlength,)
+
+    def counts(self, c, x, y, err=None):
+        return addc(n_pvb(c, c.bitlength), n_ac(c))
+
+
+@register
+class AssertLt(_AssertCmp):
+    name = "pysnark.runtime:LinComb.assert_lt"
+    rel = staticmethod(lambda x, y: x < y)
+    diff = staticmethod(lambda x, y: y - x - 1)
+
+
+@register
+class AssertLe(_AssertCmp):
+    name = "pysnark.runtime:LinComb.assert_le"
+    rel = staticmethod(lambda x, y: x <= y)
+    diff = staticmethod(lambda x, y: y - x)
+
+
+@register
+class AssertGt(_AssertCmp):
+    name = "pysnark.runtime:LinComb.assert_gt"
+    rel = staticmethod(lambda x, y: x > y)
+    diff = staticmethod(lambda x, y: x - y - 1)
+
+
+@register
+class AssertGe(_AssertCmp):
+    name = "pysnark.runtime:LinComb.assert_ge"
+    rel = staticmethod(lambda x, y: x >= y)
+    diff = staticmethod(lambda x, y: x - y)
+
+
+class _AssertEqNe(Contract):
+    neg = False
+
+    def configs(self, tier):
+        return [dict(mode=m, kind=k) for m in MODES for k in ("ss", "sk")]
+
+    def setup(self, c, cfg):
+        apply_mode(c, cfg["mode"])
+        return getattr(c.LinComb, self.name.rsplit(".", 1)[1]), (c.operand("x"), _other_operand(c, cfg["kind"])), {}
+
+    def rel(self, xv, yv):
+        return xv != yv if self.neg else xv == yv
+
+    def raises(self, c, x, y, err=None):
+        xv, yv = c.v(x), _ov(c, y)
+        out = [(AssertionError, And(Not(ie(c)), Not(self.rel(xv, yv))))]
+        if self.neg:
+            d = xv - yv
+            out.append((ZeroDivisionError, And(isg(c), d != 0, d % c.p == 0)))
+        return out
+
+    def post(self, c, r, x, y, err=None):
+        xv, yv = c.v(x), _ov(c, y)
+        fe = (c.eva(x) - _oa(c, y)) % c.p == 0
+        return {
+            "S.field": Implies(on(c), Not(fe) if self.neg else fe),
+            "E.enforced": Implies(And(on(c), _tied(c, x, y), small(c, xv, yv)), self.rel(xv, yv)),
+        }
+
+    def counts(self, c, x, y, err=None):
+        return addc((0, 1, 0), n_ac(c)) if self.neg else n_ac(c)
+
+
+@register
+class AssertEq(_AssertEqNe):
+    name = "pysnark.runtime:LinComb.assert_eq"
+
+
+@register
+class AssertNe(_AssertEqNe):
+    name = "pysnark.runtime:LinComb.assert_ne"
+    neg = True
+
+
+@register
+class AssertRange(Contract):
+    """x.assert_range(lo, hi): lo <= x < hi, as the run-time check has it."""
+    name = "pysnark.runtime:LinComb.assert_range"
+
+    def configs(self, tier):
+        out = []
+        for n in ((3,) if tier == "quick" else (2, 8, 16)):
+            for m in MODES:
+                for k in ("kk", "ss"):
+                    out.append(dict(mode=m, kind=k, bits=n))
+        return out
+
+    def setup(self, c, cfg):
+        apply_mode(c, cfg["mode"], bitlength=cfg["bits"])
+        if cfg["kind"] == "kk":
+            lo, hi = c.public_int("lo"), c.public_int("hi")
+        else:
+            lo, hi = c.operand("lo"), c.operand("hi")
+        return c.LinComb.assert_range, (c.operand("x"), lo, hi), {}
+
+    def pre(self, c, x, lo, hi, err=None):
+        return [(1 << (c.bitlength + 1)) < c.p]
+
+    def raises(self, c, x, lo, hi, err=None):
+        xv, l, h = c.v(x), _ov(c, lo), _ov(c, hi)
+        n = c.bitlength
+        return [(AssertionError, And(Not(ie(c)), Or(xv < l, xv >= h, xv - l >= (1 << n), h - xv >= (1 << n))))]
+
+    def post(self, c, r, x, lo, hi, err=None):
+        xv, l, h = c.v(x), _ov(c, lo), _ov(c, hi)
+        hyp = And(on(c), _tied(c, x, lo, hi), small(c, xv, l, h))
+        return {
+            "E.lower": Implies(hyp, l <= xv),
+            "E.upper": Implies(hyp, xv < h),
+            "E.upper_weak": Implies(hyp, xv <= h),
+        }
+
+    def key(self, c, x, lo, hi, err=None):
+        return (c.bitlength,)
+
+    def counts(self, c, x, lo, hi, err=None):
+        return addc(n_pvb(c, 2 * c.bitlength), n_ac(c, 2))
